@@ -172,3 +172,64 @@ Example C11_float_witness_order :
     victims_order FloatExamples.exF
       [FloatExamples.mkc 0 8 4; FloatExamples.mkc 1 6 6] = l1 ++ 1 :: l2 ++ 0 :: l3.
 Proof. exact FloatExamples.ex_clear_order. Qed.
+
+(* ====================================================================== *)
+(* Simulator level: the pool-level kills of every tick of a whole run      *)
+(* ====================================================================== *)
+(* [sim_reach C a 0 (init_sim C np cpu ram) t s]: [s] is the simulator state after [t] ticks of some run of
+   the shipped scheduler [a] (in particular overbook with RAM overcommit, the only configuration in which the
+   pool-level loop finds victims, C04_sim_kill_justified); every tick of [sim_run] is such a [sim_tick]
+   (C04_sim_run_ticks). Any rounding function. For the pool at position [i] ([p] before the tick, [p']
+   after it; same id and capacity): [act4] are its containers as they enter the killer in this tick (distinct
+   ids), [act5] as they leave it; the running ones among [act5] are the pool's active list after the tick, the
+   finished ones are its results of the tick; and the killer's run satisfies the conclusion of
+   C11_oom_killer_spec with the capacity of the pool: own-limit kills first, then a prefix of the descending
+   score order, no candidate with a strictly higher score survives a victim, every kill happened while the
+   tracked usage exceeded the capacity, the loop stops as soon as it fits. *)
+From Eudoxia Require Import Model.Executor Model.Sched Model.Simulator Proofs.PriorityPoolRunFacts
+  Proofs.SimCorollaryFacts.
+
+Theorem C11_sim_kills : forall C a np cpu ram t s newp s' lg i p,
+  sim_reach C a 0%Z (init_sim C np cpu ram) t s ->
+  sim_tick C a t s newp = Ok (s', lg) ->
+  nth_error (e_pools (sm_exec s)) i = Some p ->
+  exists p' res w4 cons4 act4 w5 cons5 act5,
+    nth_error (e_pools (sm_exec s')) i = Some p' /\ p_id p' = p_id p /\ p_max_ram p' = p_max_ram p /\
+    incl res (tl_results lg) /\
+    NoDup (map c_id act4) /\
+    oom_killer C (p_max_ram p) w4 cons4 act4 = Ok (w5, cons5, act5) /\
+    p_active p' = filter (fun c => negb (c_completed c)) act5 /\
+    res = map (result_of (p_id p)) (filter c_completed act5) /\
+    exists w1 cons1 act1 k vs,
+      kill_over_limit C w4 cons4 act4 = Ok (w1, cons1, act1) /\
+      act1 = map (kill_when over_limit) act4 /\
+      (k <= length (victims_order C act1))%nat /\
+      map c_id vs = firstn k (victims_order C act1) /\
+      act5 = map (kill_if (firstn k (victims_order C act1))) act1 /\
+      (forall id, In id (ids_killed act1 act5) <-> In id (firstn k (victims_order C act1))) /\
+      Forall (fun v => In v act1 /\ scorable v = true) vs /\
+      (forall v x, In v vs -> In x act1 -> scorable x = true ->
+                   ~ In (c_id x) (ids_killed act1 act5) ->
+                   (score C x <= score C v)%Q /\ ~ (score C v < score C x)%Q) /\
+      cons5 = fold_left (cons_after C) vs cons1 /\
+      Forall (fun q => Qle_bool q (p_max_ram p) = false) (kill_trace C cons1 vs) /\
+      (k = length (victims_order C act1) \/ Qle_bool cons5 (p_max_ram p) = true).
+Proof. exact SimCorollaryFacts.C11_sim_kills. Qed.
+Print Assumptions C11_sim_kills.
+
+(* non-vacuity: the overbook run of C04_sim_witness (RAM overcommit, two containers of 6 GB with 10 GB
+   allocations on a pool of 10 GB): the theorem applies to tick 0 and pool 0; container 0 (first of two equal
+   scores) is the victim, container 1 survives and the pool fits again *)
+Example C11_sim_witness :
+  sim_reach SimCorExamples.Ck AOverbook 0%Z (init_sim SimCorExamples.Ck 1 10%Z 10%Q) 0%Z SimCorExamples.k0 /\
+  sim_tick SimCorExamples.Ck AOverbook 0%Z SimCorExamples.k0 [0%nat; 1%nat]
+    = Ok (SimCorExamples.k1, SimCorExamples.klg0) /\
+  (exists p, nth_error (e_pools (sm_exec SimCorExamples.k0)) 0 = Some p) /\
+  map (fun r => (r_cid r, r_err r, Qred (r_ram r))) (tl_results SimCorExamples.klg0) = [(0%nat, true, 10%Q)] /\
+  map (fun p => map (fun c => (c_id c, Qred (c_mem c), Qred (c_ram c))) (p_active p))
+      (e_pools (sm_exec SimCorExamples.k1)) = [[(1%nat, 6%Q, 10%Q)]] /\
+  map (fun p => Qred (p_consumed p)) (e_pools (sm_exec SimCorExamples.k1)) = [6%Q].
+Proof.
+  split; [exact SimCorExamples.k_reach0|]. split; [exact SimCorExamples.k_tick0|].
+  split; [exact SimCorExamples.k_pool0|]. exact (proj2 SimCorExamples.k_facts).
+Qed.
